@@ -17,7 +17,9 @@ R13.22  CPython binds `f.__defaults__ = t` to the LAST len(t) positional
             (re-binding to a fresh mapping drops what was there; `.update`,
             `[k] = v`, `|=` keep it; `{**a, **b}` / `a | b` / `dict(a, **b)`
             join; `{k: v for k, v in m.items() if k [not] in <signature>.
-            kwonly_params / param_names}` and the matching delete-loop select).
+            kwonly_params / param_names}`, the matching delete-loop and the
+            copy-loop `for k in <signature>.kwonly_params: [if k in m:] d[k] =
+            m[k]` select).
             It must contain `new` and must NOT contain `old-pos`.
           * PyTDSignature.set_defaults rebuilds every pytd.Parameter; the
             `optional=` flag it passes must be decided by the remaining new
@@ -294,6 +296,31 @@ class DefaultsFlow:
         gone = self.select(frozenset({OLD_POS, OLD_KW, NEW}), st.body[0].test, k)
         self.state = frozenset(self.state - gone)
         return
+    # (c) `for k in <positional / keyword-only names>: [if k in S:] M[k] = S[k]`
+    grp = self.name_group(it)
+    if grp is not None and isinstance(st.target, ast.Name) and len(st.body) == 1:
+      k = st.target.id
+      inner = st.body[0]
+      if isinstance(inner, ast.If) and not inner.orelse and len(inner.body) == 1 and \
+          isinstance(inner.test, ast.Compare) and len(inner.test.ops) == 1 and \
+          isinstance(inner.test.ops[0], ast.In) and src(inner.test.left) == k and \
+          (self.is_state(inner.test.comparators[0]) or
+           isinstance(inner.test.comparators[0], ast.Name)):
+        guard_map = inner.test.comparators[0]
+        inner = inner.body[0]
+      else:
+        guard_map = None
+      if isinstance(inner, ast.Assign) and len(inner.targets) == 1 and \
+          isinstance(inner.targets[0], ast.Subscript) and \
+          src(inner.targets[0].slice) == k and \
+          isinstance(inner.value, ast.Subscript) and src(inner.value.slice) == k and \
+          (guard_map is None or src(guard_map) == src(inner.value.value)):
+        source = inner.value.value
+        if self.is_state(source) or (isinstance(source, ast.Name) and source.id in self.env):
+          comps = self.value(source)
+          picked = comps & ({OLD_KW} if grp == "kw" else {OLD_POS, NEW})
+          if self.mutate(inner.targets[0].value, frozenset(picked)):
+            return
     raise AnalysisError(f"{self.what}: loop `for {src(st.target)} in {src(st.iter)[:40]}` "
                         "over the defaults mapping is not understood")
 
@@ -453,7 +480,13 @@ def r13_22(ctx):
             {"call": src(c), "guards": [src(t)[:80] for t, _ in guards]})
 
 
-_OLD = "    self.signature.defaults = defaults\n"
+_OLD = ("    # `__defaults__` only describes the positional parameters; the defaults of\n"
+        "    # keyword-only parameters live in `__kwdefaults__` and stay as they are.\n"
+        "    for name in self.signature.kwonly_params:\n"
+        "      if name in self.signature.defaults:\n"
+        "        defaults[name] = self.signature.defaults[name]\n"
+        "    self.signature.defaults = defaults\n")
+_LAST = "    self.signature.defaults = defaults\n"
 _ZIP = "dict(zip(self.signature.param_names[-len(defaults) :], defaults))"
 
 VARIANTS = [
@@ -476,22 +509,35 @@ VARIANTS = [
      "new": "    kwonly = {\n        k: v\n        for k, v in self.signature.defaults.items()\n"
             "        if k in self.signature.kwonly_params\n    }\n"
             "    self.signature.defaults = {**defaults, **kwonly}\n"},
+    {"name": "twin-keyword-only-entries-copied-by-loop", "rule": "R13.22", "file": FB, "expect": "silent",
+     "old": _OLD,
+     "new": "    for name in self.signature.kwonly_params:\n"
+            "      if name in self.signature.defaults:\n"
+            "        defaults[name] = self.signature.defaults[name]\n" + _OLD},
+    {"name": "positional-entries-copied-by-loop", "rule": "R13.22", "file": FB, "expect": "fire",
+     "old": _OLD,
+     "new": "    for name in self.signature.param_names:\n"
+            "      if name in self.signature.defaults:\n"
+            "        defaults[name] = self.signature.defaults[name]\n" + _OLD},
     {"name": "twin-delete-positional-then-update", "rule": "R13.22", "file": FB, "expect": "silent",
      "old": _OLD,
      "new": "    sig = self.signature\n    for name in list(sig.defaults):\n"
             "      if name in sig.param_names:\n        del sig.defaults[name]\n"
             "    sig.defaults.update(defaults)\n"},
     {"name": "twin-clear-and-update", "rule": "R13.22", "file": FB, "expect": "silent",
-     "old": _OLD,
+     "old": _LAST,
      "new": "    self.signature.defaults.clear()\n    self.signature.defaults.update(defaults)\n"},
     {"name": "twin-renamed-local-guard-clause", "rule": "R13.22", "file": FB, "expect": "silent",
      "old": "    defaults = " + _ZIP + "\n" + _OLD,
      "new": "    names = self.signature.param_names[-len(defaults) :]\n"
             "    by_name = dict(zip(names, defaults))\n"
+            "    for name in self.signature.kwonly_params:\n"
+            "      if name in self.signature.defaults:\n"
+            "        by_name[name] = self.signature.defaults[name]\n"
             "    self.signature.defaults = by_name\n"},
     {"name": "twin-store-in-self-helper", "rule": "R13.22", "expect": "silent",
      "edits": [
-         (FB, _OLD, "    self._install_defaults(defaults)\n"),
+         (FB, _LAST, "    self._install_defaults(defaults)\n"),
          (FB, "  def _mutations_generator(\n",
           "  def _install_defaults(self, by_name):\n"
           "    self.signature.defaults = by_name\n\n"
